@@ -77,11 +77,19 @@ FocusBank == IF l > N \/ NextRsp[l] = 0 THEN -1
              ELSE LET id == TraceLog[NextRsp[l]].id IN
                   IF id \in 1..Len(loc) THEN loc[id].b ELSE -1
 
+\* Lanes matter only through LaneOvertake ("an item may leave if no older item shares its lane"), and only as a
+\* partition of the items in the pipeline: a new item joins a lane in use or opens the first free one.
+LanesInUse(b) == {pipe[b][i].lane : i \in 1..Len(pipe[b])}
+LaneChoice(b) ==
+  IF "LaneOvertake" \notin cfg.dev THEN {1}
+  ELSE LanesInUse(b) \cup (IF Lanes \ LanesInUse(b) = {} THEN {}
+                           ELSE {CHOOSE x \in Lanes \ LanesInUse(b) : \A y \in Lanes \ LanesInUse(b) : x <= y})
+
 TInternal ==
   /\ FocusBank >= 0 /\ UNCHANGED <<l, run, hyp>>
   /\ LET b == FocusBank IN
-     \/ \E i \in 1..Len(pending), lane \in Lanes : loc[pending[i]].b = b /\ Dispatch(i, lane)
-     \/ \E lane \in Lanes : Expire(b, lane)
+     \/ \E i \in 1..Len(pending), lane \in LaneChoice(b) : loc[pending[i]].b = b /\ Dispatch(i, lane)
+     \/ \E lane \in LaneChoice(b) : Expire(b, lane)
      \/ \E k \in 1..Len(pipe[b]) : ExitAndCommit(b, k)
 
 TNext == TEnvReq \/ TDrain \/ TRsp \/ TTake \/ TQuiesce \/ TInternal
